@@ -10,7 +10,7 @@ from . import c01
 from .. import common
 from ..schedlib import CACHE, layout, model_request, run_impl
 
-MODULES = sc.MODULES
+MODULES = sc.MODULES + ["Props.C04"]
 GEN_OBLIGATIONS = sc.GEN_OBLIGATIONS
 THEOREM_DEPS = []
 
